@@ -32,9 +32,6 @@ func vh_C16_validate_parser() {
 	} else {
 		verifReach("reverse-proxy")
 		verifAssert("C16.validate.parser-or-rejected", parser != nil || err != nil)
-		if o.RealClientIPHeader == "X-Client" {
-			verifAssert("C16.validate.unsupported-header-rejected", err != nil)
-		}
 	}
 	if err == nil {
 		verifReach("valid")
